@@ -21,6 +21,7 @@ import (
 	"strconv"
 	"strings"
 
+	"github.com/youchainhq/go-youchain/bls"
 	"github.com/youchainhq/go-youchain/common"
 	"github.com/youchainhq/go-youchain/consensus/ucon"
 	"github.com/youchainhq/go-youchain/core/state"
@@ -66,9 +67,15 @@ type e2eWorld struct {
 	lastOK   bool
 	lastWhat string
 	w        *world
+	bls      bool
+	blsSk    []bls.SecretKey
+	commits  map[common.Hash]*types.Block // sealed blocks the real Server.commit produced (by block hash)
+	nMerged  int
 }
 
 var valRoot = common.HexToHash("0xc03c03")
+
+var blsMgr = bls.NewBlsManager()
 
 func newE2EWorld(line string) (*world, error) {
 	f := strings.Fields(line)
@@ -83,7 +90,7 @@ func newE2EWorld(line string) (*world, error) {
 		}
 		a = append(a, n)
 	}
-	e := &e2eWorld{T: a[1], Tc: a[2], round: a[3], blocks: map[uint64]*types.Block{}, byHash: map[common.Hash]uint64{}, declared: map[uint64]bool{}, cache: map[string]sortRes{}}
+	e := &e2eWorld{bls: f[0] == "E2EB", commits: map[common.Hash]*types.Block{}, T: a[1], Tc: a[2], round: a[3], blocks: map[uint64]*types.Block{}, byHash: map[common.Hash]uint64{}, declared: map[uint64]bool{}, cache: map[string]sortRes{}}
 	e.seed = crypto.Keccak256Hash([]byte{byte(a[0]), 0xc0, 0x03})
 	initKeys()
 	if len(a)-4 > nKeys {
@@ -101,6 +108,13 @@ func newE2EWorld(line string) (*world, error) {
 			return nil, err
 		}
 		e.vrfSk = append(e.vrfSk, sk)
+		bb := make([]byte, 32)
+		bb[0], bb[30], bb[31] = 0x1b, byte(k), 0x35
+		bsk, err := blsMgr.DecSecretKey(bb)
+		if err != nil {
+			return nil, err
+		}
+		e.blsSk = append(e.blsSk, bsk)
 		if v.flag == 3 {
 			continue
 		}
@@ -113,7 +127,12 @@ func newE2EWorld(line string) (*world, error) {
 		}
 		pub := crypto.CompressPubkey(&keys[k].PublicKey)
 		addr := crypto.PubkeyToAddress(keys[k].PublicKey)
-		nv := st.CreateValidator(fmt.Sprintf("v%d", k), addr, addr, role, pub, pub, new(big.Int).SetUint64(v.stake), new(big.Int).SetUint64(v.stake), params.AcceptDelegation, 0, 0, uint8(status))
+		bpk, err := bsk.PubKey()
+		if err != nil {
+			return nil, err
+		}
+		bpub := bpk.Compress()
+		nv := st.CreateValidator(fmt.Sprintf("v%d", k), addr, addr, role, pub, bpub[:], new(big.Int).SetUint64(v.stake), new(big.Int).SetUint64(v.stake), params.AcceptDelegation, 0, 0, uint8(status))
 		if nv == nil {
 			return nil, fmt.Errorf("CreateValidator failed for %d", k)
 		}
@@ -131,7 +150,7 @@ func newE2EWorld(line string) (*world, error) {
 	}
 	// protocol parameters: the current version with the world's thresholds; BLS off (the driven Voter signs with secp256k1)
 	yp := params.Versions[params.YouCurrentVersion]
-	yp.EnableBls = false
+	yp.EnableBls = e.bls // E2EB: the path every shipped version uses; E2E: the secp256k1 path
 	yp.ValidatorThreshold, yp.CertValThreshold = e.T, e.Tc
 	// the proposer must be selected with >= 1 sub-user: proposer threshold = chamber stake gives p = 1, i.e. seats = stake
 	// (p = threshold/total stake must stay <= 1: gonum's binomial CDF panics otherwise)
@@ -161,6 +180,10 @@ func newE2EWorld(line string) (*world, error) {
 	w := newWorld()
 	w.e2e = e
 	e.w = w
+	if e.bls {
+		// the Voter's parameter and look-back managers are the real Server: BLS signing, signer recovery and packing
+		w.d = ucon.NewVerifC03VoterOnServer(youdb.NewMemDatabase(), keys[0], e.blsSk[0], w.env, e.srv)
+	}
 	w.env.VerifySortition = e.srv.VerifySortition
 	w.env.Stake = func(round *big.Int, addr common.Address, lb params.LookBackType) (uint64, params.ValidatorKind, error) {
 		_, _, th, kind, err := e.srv.StakeInfo(round, addr, lb)
@@ -304,6 +327,58 @@ func (e *e2eWorld) prepareVote(w *world, a []uint64, m *ucon.VerifC03Msg) {
 	if a[14] != 1 && uint64(s.j) == a[6] && len(m.Proof) > 8 {
 		m.Proof[7] ^= 0x41
 	}
+	if e.bls {
+		// a BLS vote names its signer by the index in the look-back validator list and carries a BLS signature
+		m.VoterIdx = 9999
+		if idx, ok := e.st.GetValidators().GetIndex(crypto.PubkeyToAddress(keys[a[5]].PublicKey)); ok {
+			m.VoterIdx = uint32(idx)
+		}
+		sig := e.blsSk[a[5]%uint64(len(e.blsSk))].Sign(ucon.VerifC03VotePayload(m.Hash, m.Round, m.RoundIndex)).Compress()
+		m.RawSig = sig[:]
+	}
+}
+
+// afterDelivery: the header-update leg. Every UpdateExistedHeaderEvent the Voter posted is given to the REAL
+// Server.updateBlockHeader (the committed headers are in the scripted chain); a header the merge rewrote must still be
+// accepted by the real verifier and must not have lost a committer.
+func (e *e2eWorld) afterDelivery(w *world, st ucon.VerifC03Step) {
+	for _, ev := range st.Updates {
+		blk := e.commits[ev.BlockHash]
+		if blk == nil {
+			continue
+		}
+		func() {
+			defer func() {
+				if r := recover(); r != nil {
+					w.led.fail(fmt.Sprintf("update_preserves_verification: Server.updateBlockHeader / the verifier panicked on the update of block %d: %v", e.hid(ev.BlockHash), r), "")
+				}
+			}()
+			n0 := len(e.chain.Updated)
+			before, _ := ucon.ExtractUconValidators(blk.Header(), params.LookBackPos)
+			e.srv.UpdateHeader(ev)
+			if len(e.chain.Updated) == n0 {
+				return
+			}
+			e.nMerged++
+			hdr := e.chain.Updated[len(e.chain.Updated)-1]
+			nb := blk.WithSeal(hdr)
+			after, _ := ucon.ExtractUconValidators(hdr, params.LookBackPos)
+			if before != nil && after != nil && len(after.ChamberCommitters) < len(before.ChamberCommitters) {
+				w.led.fail(fmt.Sprintf("update_preserves_verification: the merge of block %d dropped committers (%d -> %d)", e.hid(ev.BlockHash), len(before.ChamberCommitters), len(after.ChamberCommitters)), "")
+			}
+			if err := e.srv.S.VerifySideChainHeader(&e.yp.CaravelParams, e.lb, e.st, e.lb, e.st, nb, []*types.Block{e.parent}); err != nil {
+				w.led.fail(fmt.Sprintf("update_preserves_verification: the header of block %d committed in index %d verified, but after Server.updateBlockHeader merged the votes of an UpdateExistedHeaderEvent for (%d,%d) the real VerifySideChainHeader rejects it: %v",
+					e.hid(ev.BlockHash), before.RoundIndex, u64(ev.Round), ev.RoundIndex, err), e.matchUpdate(before.RoundIndex, ev))
+				return
+			}
+			e.commits[ev.BlockHash] = nb
+		}()
+	}
+}
+
+// matchUpdate names the known finding a rejected merged header belongs to.
+func (e *e2eWorld) matchUpdate(committedIndex uint32, ev ucon.UpdateExistedHeaderEvent) string {
+	return ""
 }
 
 // lineFor computes a consistent V line for the real world: weight, stake lookup, kind, threshold and credential class.
@@ -335,7 +410,11 @@ func (e *e2eWorld) lineFor(vt, r, i, h, p, sender, status uint64, tamper int, sr
 			cred = 2
 		}
 	}
-	return fmt.Sprintf("V %d %d %d %d %d %d %d %d 0 1 1 %d %d %d %d", vt, r, i, h, p, sender, votes, status, stakeOK, kind, th, cred)
+	sigOK := 1
+	if e.bls && !e.inSet(sender) {
+		sigOK = 0 // no index in the validator list: the BLS signer cannot be recovered
+	}
+	return fmt.Sprintf("V %d %d %d %d %d %d %d %d 0 %d 1 %d %d %d %d", vt, r, i, h, p, sender, votes, status, sigOK, stakeOK, kind, th, cred)
 }
 
 // lastVerdict assembles the last CommitEvent into a block with the real Server.commit and asks the real verifier.
@@ -358,12 +437,14 @@ func (e *e2eWorld) verify(ev ucon.CommitEvent) {
 		return
 	}
 	e.lastOK, e.lastWhat = true, ""
+	e.commits[blk.Hash()] = blk
+	e.chain.ByHash[blk.Hash()] = blk.Header()
 }
 
 // ---------------------------------------------------------------------------------------------------------------
 
 // genE2E builds an end-to-end history.
-func genE2E(r *vh.RNG, lag bool) []string {
+func genE2E(r *vh.RNG, lag bool, blsWorld bool) []string {
 	n := r.Range(3, 7)
 	cert := r.Chance(50)
 	R := uint64(32768 * (1 + r.Intn(2)))
@@ -395,7 +476,11 @@ func genE2E(r *vh.RNG, lag bool) []string {
 		}
 	}
 	Tc := T
-	hdr := fmt.Sprintf("E2E %d %d %d %d", r.Intn(250), T, Tc, R)
+	tag := "E2E"
+	if blsWorld {
+		tag = "E2EB"
+	}
+	hdr := fmt.Sprintf("%s %d %d %d %d", tag, r.Intn(250), T, Tc, R)
 	for k := range stakes {
 		hdr += fmt.Sprintf(" %d", stakes[k]*4+flags[k])
 	}
@@ -495,21 +580,109 @@ func genE2E(r *vh.RNG, lag bool) []string {
 	return out
 }
 
+// genE2EUpdate: the header-update leg. Block 1 collects some precommits in index 1 (no quorum), is committed in index 2,
+// then (a) late precommits of index 2 arrive after the commit (votesUpdateEv, flushed at the next context change) and
+// (b) stale precommits of index 1 arrive until that old wrapper passes the update quorum.
+func genE2EUpdate(r *vh.RNG, blsWorld bool) []string {
+	n := r.Range(4, 7)
+	cert := r.Chance(30)
+	R := uint64(32768)
+	if !cert {
+		R = []uint64{32767, 40001, 9}[r.Intn(3)]
+	}
+	total := uint64(0)
+	tag := "E2E"
+	if blsWorld {
+		tag = "E2EB"
+	}
+	stakes := make([]uint64, n)
+	for k := range stakes {
+		stakes[k] = uint64(r.Range(2, 6))
+		total += stakes[k]
+	}
+	hdr := fmt.Sprintf("%s %d %d %d %d", tag, r.Intn(250), total, total, R)
+	for k := range stakes {
+		hdr += fmt.Sprintf(" %d", stakes[k]*4)
+	}
+	out := []string{hdr}
+	w, err := newE2EWorld(hdr)
+	if err != nil {
+		return out
+	}
+	e := w.e2e
+	q := uint64(quorumOf(total, true))
+	out = append(out, "EM 1 11 1", fmt.Sprintf("S %d 1", R), fmt.Sprintf("C %d 1 2 %d", R, b01(cert)), fmt.Sprintf("C %d 1 4 %d", R, b01(cert)))
+	// index 1: a few precommits for block 1, kept below the quorum (the own vote counts too)
+	acc := stakes[0]
+	early := map[int]bool{}
+	for s := 1; s < n; s++ {
+		if acc+stakes[s] < q && r.Chance(70) {
+			out = append(out, e.lineFor(3, R, 1, 1, 11, uint64(s), 2, 0, R, 1))
+			acc += stakes[s]
+			early[s] = true
+		}
+	}
+	// index 2: everybody prevotes and precommits block 1 (and certifies in a certificate round)
+	out = append(out, fmt.Sprintf("S %d 2", R), fmt.Sprintf("C %d 2 2 %d", R, b01(cert)))
+	kinds := []uint64{2, 3}
+	if cert {
+		kinds = []uint64{2, 5, 3}
+	}
+	for _, vt := range kinds {
+		for s := 1; s < n; s++ {
+			out = append(out, e.lineFor(vt, R, 2, 1, 11, uint64(s), 2, 0, R, 2))
+		}
+	}
+	// stale precommits of index 1 from the others
+	order := []int{}
+	for s := 1; s < n; s++ {
+		if !early[s] {
+			order = append(order, s)
+		}
+	}
+	for _, s := range order {
+		out = append(out, e.lineFor(3, R, 1, 1, 11, uint64(s), 1, 0, R, 2))
+	}
+	// next round: the pending update of index 2 is flushed; stale votes now have status oldRound
+	out = append(out, fmt.Sprintf("S %d 1", R+1), fmt.Sprintf("C %d 1 0 0", R+1))
+	if r.Chance(50) && len(order) > 0 {
+		out = append(out, e.lineFor(3, R, 1, 1, 11, uint64(order[0]), 0, 0, R+1, 1))
+	}
+	out = append(out, "D")
+	return out
+}
+
 func runE2E(c *vh.Ctx, drv *vh.Driver, do func(name string, lines []string, family string) scriptResult) error {
-	n := c.N(120, 1500)
+	n := c.N(70, 900)
 	for k := 0; k < n; k++ {
-		lines := genE2E(c.R.Fork(), false)
+		lines := genE2E(c.R.Fork(), false, false)
 		rr := do("e2e", lines, "e2e-real-credentials")
 		if k == 0 {
 			c.Res.Sample(map[string]interface{}{"e2e_script": lines, "go_responses": strings.Split(strings.TrimSpace(rr.canon), "\n")})
 		}
 		c.Res.DistN("e2e-commits-verified-by-real-verifier", rr.commits)
 	}
+	// the same on the BLS path (EnableBls = true as in every shipped version): VoteBLSMgr.SignVote / getAddrFromVote,
+	// BlsVerifier.PackVotes / aggregateVotes, the BLS branch of verifyVotes with VerifyAggregatedOne
+	for k := 0; k < c.N(60, 700); k++ {
+		lines := genE2E(c.R.Fork(), false, true)
+		rr := do("e2e-bls", lines, "e2e-bls")
+		if k == 0 {
+			c.Res.Sample(map[string]interface{}{"e2e_bls_script": lines, "go_responses": strings.Split(strings.TrimSpace(rr.canon), "\n")})
+		}
+		c.Res.DistN("e2e-bls-commits-verified-by-real-verifier", rr.commits)
+	}
 	// the Server's context runs ahead of the Voter's in the last index (verifySortition's leniency window, known finding F-C03b)
 	for k := 0; k < c.N(30, 300); k++ {
-		lines := genE2E(c.R.Fork(), true)
+		lines := genE2E(c.R.Fork(), true, k%2 == 1)
 		rr := do("e2e-lag", lines, "e2e-server-ahead")
 		c.Res.DistN("e2e-commits-verified-by-real-verifier", rr.commits)
+	}
+	// header updates: Server.updateBlockHeader merges later-arriving precommits; the merged header must still verify
+	for k := 0; k < c.N(30, 300); k++ {
+		lines := genE2EUpdate(c.R.Fork(), k%2 == 1)
+		rr := do("e2e-upd", lines, "e2e-header-update")
+		c.Res.DistN("e2e-headers-merged-by-real-updateBlockHeader", rr.merged)
 	}
 	return nil
 }
